@@ -37,7 +37,7 @@ def ops():
             out += [("set", k, v), ("append", k, v), ("setdefault", k, v)]
         out += [("setdefault", k, None)]  # setdefault(key) without a default stores None: a value like any other
         out += [("del", k), ("pop", k), ("popd", k), ("poplist", k), ("setlist", k, ()), ("setlist", k, ("1",)), ("setlist", k, ("2", "1")), ("setlist", k, ("", ""))]
-    out += [("popitem",), ("clear",), ("update_self",), ("update_self_items",), ("update_pairs", (("a", "2"),)), ("update_pairs", (("b", "1"), ("b", "2"))), ("update_map", (("a", ""), ("b", "1"))), ("update_kw", (("b", "2"),))]
+    out += [("popitem",), ("clear",), ("update_self",), ("update_self_items",), ("update_same_object",), ("update_pairs", (("a", "2"),)), ("update_pairs", (("b", "1"), ("b", "2"))), ("update_map", (("a", ""), ("b", "1"))), ("update_kw", (("b", "2"),))]
     return out
 
 
@@ -77,6 +77,8 @@ def apply_impl(m, op):
             m.update(m.multi_items())
         elif o == "update_self_items":
             m.update(m.items())
+        elif o == "update_same_object":  # the mapping itself as the argument: a mapping like any other
+            m.update(m)
     except KeyError:
         return ("KeyError",)
     except Exception as e:  # noqa
@@ -140,7 +142,7 @@ def apply_ref(l, op, impl_result):
     elif o == "update_self":
         for k, v in list(l):
             apply_ref(l, ("set", k, v), None)
-    elif o == "update_self_items":
+    elif o in ("update_self_items", "update_same_object"):
         d = {}
         for k, v in l:
             d[k] = v
@@ -339,6 +341,7 @@ def shards(tier, seed):
     out = [("bfs", i) for i in range(len(INITS))]
     out.append(("noarg",))
     out += [("query", i) for i in range(len(QA))]
+    out += [("python-O", ("bfs", 3)), ("python-O", ("bfs", 5)), ("python-O", ("noarg",))]
     return out
 
 
@@ -347,6 +350,10 @@ QA = ["a", "a b", "&", "=", "%", "+", "é", "", "%41", "25%20off"]
 
 def run_shard(desc, tier):
     r = R()
+    if desc[0] == "python-O":
+        # the same family in an interpreter that runs with assert statements compiled away
+        from ..core import fresh
+        return fresh.optimized(__name__, tuple(desc[1]), tier)
     if desc[0] == "noarg":
         noarg_family(r)
         return r
@@ -432,6 +439,10 @@ def finish(merged, tier):
 
 
 def replay(w):
+    import sys as _sys
+    if w.get("optimize") and not _sys.flags.optimize:
+        from ..core import fresh
+        return fresh.replay_optimized(__name__, w)
     r = R()
     if "noarg" in w:
         noarg_family(r)
